@@ -37,6 +37,35 @@ def prefixes(rnd, tier):
     lens += [rnd.randrange(65, 200000) for _ in range(6 if tier == 'quick' else 60)]
     for n in sorted(set(l for l in lens if 0 <= l < 255 * 1024)):
         out.append(('stub-len-%s' % ('<=64' if n <= 64 else 'near-%d' % (24 * round(n / 24)) if n <= 1024 else 'near-limit' if n > 250000 else 'random'), rb(n)))
+    # near misses of the two marker strings are ordinary stub bytes: every proper prefix (>= 3 bytes), every single-character
+    # change, case changes - alone and inside longer text - must leave the members unchanged
+    near = set()
+    for mk in MARKERS:
+        for k in range(3, len(mk)):
+            near.add(mk[:k])
+            near.add(mk[:k] + b' ')
+        for i in range(len(mk)):
+            for repl in (b'x', b'0', bytes([mk[i] ^ 0x20]), b'.'):
+                v = mk[:i] + repl + mk[i + 1:]
+                if v not in MARKERS and b'-l' not in v and b'-p' not in v:
+                    near.add(v)
+        near.add(mk.lower())
+        near.add(mk.upper())
+        near.add(mk[:-1] + b'\0')
+    near = sorted(n_ for n_ in near if not any(m_ in n_ for m_ in MARKERS))
+    for j, nm_ in enumerate(near):
+        pre = rb(rnd.choice([0, 3, 11, 12, 13, 40, 4093]))
+        out.append(('near-miss-marker', pre + (b'made with ' if j % 3 == 0 else b'') + nm_ + rb(rnd.choice([0, 1, 30, 200]))))
+    # near misses of a method signature (the scanner looks for '-l??-' / '-pm?-' two bytes into a header)
+    import re
+    sig_near = [b'-lh5', b'-lh5x', b'-lh-', b'-l-', b'lh5-', b'-kh5-', b'-Lh5-', b'-l h5-', b'-pm2', b'-pn2-', b'-pm-', b'-p m2-', b'--', b'-', b'-l', b'-pm',
+                b'-lhd', b'-lzs', b'-lh55-', b'- lh5-', b'-LH5-', b'-PM2-']
+    for j, sn in enumerate(sig_near):
+        for lead in (0, 1, 2, 3, 30):
+            P_ = rb(lead) + sn + rb(rnd.choice([8, 9, 21, 100]))
+            if re.search(rb'-l..-|-pm.-', P_, re.S):
+                continue
+            out.append(('near-miss-signature', P_))
     for mk in MARKERS:
         for gap in range(0, 36):
             dec = rnd.choice(DECOYS)
@@ -164,7 +193,15 @@ def cli_part(ctx, exe, items):
         for name, A, r1, r2, r3, l1, l2 in ex.map(one, list(enumerate(items))):
             ctx.count('cli_triples')
             ctx.cov['evaluations'] += 1
-            if (l1[0], l1[1]) != (l2[0], l2[1]):
+            def nofootdate(b_):
+                # the footer's date column is the modification time of the archive *file* (fstat of the stream): for a pipe that is
+                # the moment the pipe was made, so it is not a property of the members and is left out of the comparison
+                ls = b_.split(b'\n')
+                for k_ in range(len(ls)):
+                    if ls[k_].startswith(b' Total '):
+                        ls[k_] = ls[k_][:-12]
+                return b'\n'.join(ls)
+            if (l1[0], nofootdate(l1[1])) != (l2[0], nofootdate(l2[1])):
                 ctx.violation('C16-cli-list-differs:pipe', "'lha l %s' and 'cat %s | lha l -' differ: exit %d vs %d, %d vs %d lines of output"
                               % (name, name, l1[0], l2[0], l1[1].count(b'\n'), l2[1].count(b'\n')), A)
             for tag, r in (('pipe', r2), ('redirect', r3)):
@@ -226,7 +263,7 @@ def run(ctx):
     ctx.cov['archives'] = len(base)
     ctx.cov['truncated_variants'] = len(trunc)
     ctx.cov['rule'] = ('(archive, stream kind, prefix) triples; archives = corpus + generated + four-member archives whose first/third stored members have sizes on and around powers of two and multiples of 512/4096 + truncations; prefixes = stub bytes without "-" '
-                       'and "L" at every length 0..64, around multiples of 12/24, near the 255 KiB limit, random lengths, and marker+decoy forms at '
+                       'and "L" at every length 0..64, around multiples of 12/24, near the 255 KiB limit, random lengths, near misses of the marker strings (prefixes, single-character changes, case changes), and marker+decoy forms at '
                        'gaps 0..35; reference = callbacks-with-skip on the bare archive; distinct by (archive, kind, prefix); non-trivial = '
                        'archive has at least one member and the triple is not the reference itself')
     ctx.assumptions.append('prefix bytes are drawn from a subset that cannot form a signature across the P/A junction')
